@@ -4,8 +4,12 @@
 (* sentinels + arguments.  Logged: key, table arities ka / kb (runtime     *)
 (* table), modifier (0 = none), ids and values of the stack entries before *)
 (* and after, raised.                                                      *)
+(* ka / kb are the DOCUMENTED arities where the documentation gives a      *)
+(* number (else the table arity): "an element of arity k".                 *)
 (* Prop_C09: the entries below the top Touched(...) are the same objects   *)
-(* with the same values, in the same positions.                            *)
+(* with the same values, in the same positions.  One of the entries below  *)
+(* shares state with an argument (a copy made by dup, or the same object   *)
+(* twice), as earlier program steps can arrange.                           *)
 (* Whole-stack operations (documented: wrap, reverse stack, stack length,  *)
 (* rotate, over, call; and Vyxal-exec of a string, which runs a program on *)
 (* the caller's stack) are exempt.                                         *)
@@ -25,15 +29,16 @@ WholeStackKeys == {<<87>>,          \* W   wrap the stack
                    <<8222>>,        \* „   rotate left
                    <<8223>>,        \* ‟   rotate right
                    <<558>>,         \* Ȯ   over
-                   <<8224>>,        \* †   call
-                   <<168, 7815>>}   \* ¨ẇ  wrap the top n
+                   <<8224>>}        \* †   call
+WrapTopN == <<168, 7815>>            \* ¨ẇ  wraps the top n entries: it may touch its argument n and n more
 VyxalExec == <<278>>                 \* Ė on a string runs a program on this stack
 
 Max2(a, b) == IF a > b THEN a ELSE b
 
 (* how many entries from the top the construct may touch *)
 Touched(t) ==
-    CASE t.m = 0 -> t.ka
+    CASE t.m = 0 /\ t.key = WrapTopN -> 1 + (IF t.topint >= 0 THEN t.topint ELSE 0)
+      [] t.m = 0 -> t.ka
       [] t.m \in {m_v, m_amp} -> t.ka
       [] t.m = m_tilde -> IF t.ka >= 2 THEN t.ka ELSE 1
       [] t.m = m_sz -> t.ka + 1
@@ -48,7 +53,7 @@ Prop_C09(t) ==
                       /\ SubSeq(t.vals1, 1, keep) = SubSeq(t.vals0, 1, keep) )
 
 Verdict(t) ==
-    IF t.key \in WholeStackKeys \/ (t.key = VyxalExec /\ t.strarg) \/ (t.m # 0 /\ t.opkey \in WholeStackKeys)
+    IF t.key \in WholeStackKeys \/ (t.key = VyxalExec /\ t.strarg) \/ (t.m # 0 /\ t.opkey \in WholeStackKeys \cup {WrapTopN})
     THEN "skip:whole-stack-operation"
     ELSE IF t.raised # "" THEN "skip:inapplicable-" \o t.raised
     ELSE IF ~Prop_C09(t) THEN "violation:entries-below-changed"
